@@ -66,6 +66,15 @@ def _guard_containers():
         orig(self, *a, **k)
     cls.__init__ = init
     cls._vf_guarded = True
+    # formatting stub: repr(container) is used for log lines only; empty body on symbolic paths
+    from .engine import Ctx
+    real_repr = cls.__repr__
+
+    def ctr_repr(self, *a, **k):
+        if Ctx.cur is not None and Ctx.cur.mode == 'sym':
+            return '<BundleContainer>'
+        return real_repr(self, *a, **k)
+    cls.__repr__ = ctr_repr
 
 
 class BpWorld(object):
